@@ -9,6 +9,12 @@ def bitsLt : List Bool → List Bool → Bool
   | _ :: _, [] => false
   | a :: as, b :: bs => if a == b then bitsLt as bs else (!a && b)
 
+/-- `bitsLt` is irreflexive (stated once, next to the definition: `Core/MultiSound.lean` and `Api/KVLemmas.lean` both need it and
+must stay co-importable) -/
+theorem bitsLt_irrefl : ∀ (a : List Bool), bitsLt a a = false
+  | [] => rfl
+  | x :: xs => by simp [bitsLt, bitsLt_irrefl xs]
+
 def bitsLe (a b : List Bool) : Bool := !bitsLt b a
 
 end Nomt
